@@ -509,7 +509,8 @@ for _cls, _mod in (('Socket', 'socket'), ('AsyncSocket', 'async_socket')):
         ('closed-with-transport-error', "self.closing and implies(not old(self.closing) and "
          "'disconnect' in self.server.handlers, one_disconnect(events, old(events), "
          "self.server.handlers['disconnect'], self.sid, 'transport error'))")],
-                props=['C07', 'C05'])
+                props=['C07', 'C05', 'C15'])      # C15: the session closes itself WITHOUT waiting,
+    # so the server's follow-up disconnect(sid) finds it closed and does not join its queue
     c.ensures('events-only-grow', 'grows(events, old(events))')
     c.ensures('spawned-only-grow', 'grows(spawned, old(spawned))')
     c.ensures('queue-wf', 'self.queue.unf >= len(self.queue.items)')
